@@ -9,6 +9,20 @@ BASE_ASSUMPTIONS = [
 ]
 
 CHECKS = {
+    "C15": {
+        "quick": [
+            {"pkg": "v2", "entries": ["VerifC15History"], "params": {"H": 2, "N": 2}},
+            {"pkg": "v2", "entries": ["VerifC15MapOrder"], "params": {}, "replay_repeat": 40},
+        ],
+        "thorough": [
+            {"pkg": "v2", "entries": ["VerifC15History"], "params": {"H": 3, "N": 2, "FAMS": 1}},
+            {"pkg": "v2", "entries": ["VerifC15History"], "params": {"H": 2, "N": 3}},
+            {"pkg": "v2", "entries": ["VerifC15MapOrder"], "params": {}, "replay_repeat": 40},
+        ],
+        "covers": ["c15.history.none", "c15.history.merge", "c15.maporder"],
+        "outside": "histories longer than H calls; 'fresh processes' are represented by map-iteration-order nondeterminism only (the sole per-process randomness in scope); objects with more than 2-3 keys in the map-order leg",
+        "assumptions": ["map iteration: the engine forks over every permutation of the entries at each range statement (independently per statement); native replay of a map-order counterexample is statistical (40 repetitions)"],
+    },
     "C11": {
         "quick": [
             {"pkg": "v2", "entries": ["VerifC11Merge"], "params": {"D": 0, "EMPTYOBJ": 1}},
@@ -148,7 +162,7 @@ _NA_PENDING = "check not built yet in this session (engine exists; harness pendi
 NOT_APPLICABLE = {
     "C02": _NA_PENDING, 
     "C09": _NA_PENDING, "C10": _NA_PENDING, 
-    "C14": _NA_PENDING, "C15": _NA_PENDING, "C17": _NA_PENDING, "C18": _NA_PENDING,
+    "C14": _NA_PENDING, "C17": _NA_PENDING, "C18": _NA_PENDING,
     "C16": ("quantifies over the characters of strings as they pass through yaml.v2's scanner/resolver/emitter and encoding/json "
             "(about 10k lines of third-party reflection- and regexp-driven text code); no Go symbolic engine in the image reaches that "
             "code and modelling the codecs would assume the very thing the property states; jd's own share is a 15-line adapter"),
